@@ -45,7 +45,7 @@ def gen(rng, tier):
     elif dense:
         ops = (set(common.DENSE_PAST_OPS) | {'eventually_b', 'always_b'}) - {'log'} if future else set(common.DENSE_PAST_OPS)
     else:
-        ops = (set(common.PAST_OPS) | {'eventually_b', 'always_b', 'until_b', 'next'}) - {'log'} if future else set(common.PAST_OPS)   # log: F08
+        ops = (set(common.PAST_OPS) | {'eventually_b', 'always_b', 'until_b', 'unless_b', 'next'}) - {'log'} if future else set(common.PAST_OPS)   # log: F08
     for _ in range(100):
         ast = sg.gen_formula(rng, sg.GenCfg(vars=vars_, ops=ops, max_depth=rng.randint(3, 5), max_bound=rng.choice([2, 4]),
                                             p_reuse=rng.choice([0.1, 0.3]), p_loose=rng.choice([0.08, 0.25])))
